@@ -1,4 +1,5 @@
 import BU.Properties.C07
+import BU.Properties.C07_GenTweak
 #print axioms C07.take32_append
 #print axioms C07.drop32_append
 #print axioms C07.tweakPubkey_inv
@@ -13,3 +14,7 @@ import BU.Properties.C07
 #print axioms C07.sig_length
 #print axioms C07.keypath_key_matches_unconditional
 #print axioms C07.keypath_sig_verifies_unconditional
+#print axioms C07GenTweak.gen_full_pubkey_gen
+#print axioms C07GenTweak.gen_negate_privkey
+#print axioms C07GenTweak.gen_tweak_taproot_privkey
+#print axioms C07GenTweak.gen_keypath_key_matches
